@@ -132,11 +132,14 @@ def r4_legal(piece, cuts):
     nt = piece["ntracks"]
     gt = piece.get("group_tails") or {}
     padded = extras_tracks(piece)
-    for lo, hi in groups_of(len(piece["bars"]), cuts)[:-1]:
+    groups = groups_of(len(piece["bars"]), cuts)
+    for gi_, (lo, hi) in enumerate(groups):
         last = piece["bars"][hi - 1]
         if padded or any(last["tracks"][tr] for tr in range(nt)):
             continue
-        tp = gt.get(str(hi))
+        # the last group reaches into its last bar through the piece's own trailing rest (which the single call sees too);
+        # if it does not, no EARLIER group may make a trailing empty bar real that the single call never hears of
+        tp = gt.get(str(hi)) if gi_ < len(groups) - 1 else piece.get("tail_partial")
         L = bar_len(*last["sig"])
         if not tp or not (0 <= tp[0] < nt) or not (0 < tp[1] < L):
             return False
@@ -653,6 +656,8 @@ def tok_run_one(seed, tier, index):
             # another stream playing (almost) the same material on the same tokeniser
             base = clients[rng.randrange(len(clients))]["piece"]
             piece = json.loads(json.dumps(base))
+            piece.pop("tail_partial", None)     # measured into the base's last bar and groups
+            piece.pop("group_tails", None)
             if rng.random() < 0.5 and len(piece["bars"]) > 1:
                 rng.shuffle(piece["bars"])
         else:
@@ -669,6 +674,9 @@ def tok_run_one(seed, tier, index):
             def _into(bar_index):
                 L = bar_len(*piece["bars"][bar_index]["sig"])
                 return g_rest * rng.randrange(1, max(2, L // g_rest))
+            # a piece derived from another client's (same material, bars shuffled) must not keep that one's trailing rest: it
+            # was measured into another last bar
+            piece.pop("tail_partial", None)
             if rng.random() < 0.4:
                 piece["tail_partial"] = [rng.randrange(piece["ntracks"]), _into(len(piece["bars"]) - 1)]
             has = [any(piece["bars"][hi - 1]["tracks"][tr] for tr in range(piece["ntracks"])) for lo, hi in gs]
